@@ -62,14 +62,39 @@ def as_fraction(v):
     return None
 
 
+def big_int(digits):
+    """int(digits) without CPython's limit on the length of the text (sys.get_int_max_str_digits: 4300 since 3.11):
+    the reference must not depend on the very conversion whose limit a long literal runs into"""
+    v = 0
+    for i in range(0, len(digits), 1000):
+        chunk = digits[i:i + 1000]
+        v = v * 10 ** len(chunk) + int(chunk)
+    return v
+
+
+def frac_of_literal(lit):
+    if len(lit) <= 4000:
+        return fractions.Fraction(lit)
+    ip, _, fp = lit.partition(".")
+    return fractions.Fraction(big_int((ip + fp) or "0"), 10 ** len(fp))
+
+
+def short(x):
+    try:
+        t = str(x)
+    except ValueError:                     # a number too long for str()
+        return "<a number of more than 4300 digits>"
+    return t if len(t) <= 120 else t[:60] + "..." + t[-40:] + f" ({len(t)} characters)"
+
+
 def judge(lit, text, v):
     """None when `v` is exactly the number `lit` spells; else (cls, what)."""
     import sympy
     got = as_fraction(v)
-    want = fractions.Fraction(lit)
+    want = frac_of_literal(lit)
     if got is not None and got == want:
         return None
-    shown = f"{type(v).__name__} {str(v)[:120]}"
+    shown = f"{type(v).__name__} {short(v)}"
     if INT_RE.match(lit) and text.strip() == f'stack.append(sympy.nsimplify("{lit}"))':
         # the recorded defect, and only it: the unchanged digits were handed to
         # sympy.nsimplify, and sympy itself returns this other number for them
@@ -79,7 +104,7 @@ def judge(lit, text, v):
                 return (KNOWN_CLS, f"pushes {shown}, not {lit}")
         except Exception:  # noqa: BLE001
             pass
-    return (None, f"pushes {shown}, not {want}")
+    return (None, f"pushes {shown}, not {short(want)}")
 
 
 def eval_literal(lit):
@@ -192,6 +217,10 @@ def rand_decimal(rng, max_int, max_frac):
     return d + "." + f
 
 
+LENGTH_EXTREMES = [15, 16, 17, 18, 19, 20, 21, 38, 39, 40, 63, 64, 65, 255, 256, 257, 308, 309, 310, 999, 1000, 1001, 1002, 1023, 1024, 1025,
+                   1500, 1999, 2000, 2001, 3000, 3001, 4299, 4300, 4301, 4302, 5000, 8191, 8192, 8193, 10000, 10001, 20001]
+
+
 def chunks(lst, n):
     return [lst[i:i + n] for i in range(0, len(lst), n)]
 
@@ -263,7 +292,7 @@ def run(env):
     env.rule = ("oracle on the implementation: the single value pushed by running the literal alone (exec of transpile(literal), as "
                 "main.execute_vyxal does) must be an int / sympy Integer / Rational equal to fractions.Fraction(literal): all integers "
                 "0..20000 (quick) / 0..100000 and onwards towards 10^6 within the time budget (thorough), integers sampled up to 10^60, "
-                "random decimals (<= 25 integer digits, <= 18 fraction digits, incl. leading-point and trailing-point forms); adjacent "
+                "random decimals (<= 25 integer digits, <= 18 fraction digits, incl. leading-point and trailing-point forms), integers and decimals of extreme lengths (digit counts around 16, 64, 256, 1000, 1024, 4300, 8192 ... up to 10001 / 20001); adjacent "
                 "literals: tokens and values of digit/point strings against an independent reference splitter; a sample through "
                 "main.execute_vyxal itself.  Correspondence: lexer model on number-heavy strings, transpiler model on literals, "
                 "dec_value / int_lit / Z_of_digits / literal_value against fractions.Fraction, int() and a regular expression.  "
@@ -333,6 +362,21 @@ def run(env):
     decs = [rand_decimal(rng, 25, 18) for _ in range(env.budget(5000, 60000))]
     decs += ["0.333333333333333", "1.4142135623730951", "3.141592653589793", "2.718281828459045", "0.1", "0.30000000000000004",
              "1.0", "1.", "0.", "0.0", ".5", "0.5", "123456789012345678901234567890.123456789012345678", "0.000000000000000001"]
+    # length extremes: digit counts on both sides of the lengths at which number handling changes in Python, sympy or a
+    # likely fast path (machine words, 10**k chunking, the default limit of int<->str conversion of CPython 3.11+)
+    ext_i, ext_d = [], []
+    for n in LENGTH_EXTREMES[: env.budget(36, len(LENGTH_EXTREMES))]:
+        ext_i.append(rand_int_part(rng, 1)[:1].replace("0", "7") + "".join(rng.choice("0123456789") for _ in range(n - 1)))
+        ext_i.append("1" + "0" * (n - 1))
+        ext_i.append("9" * n)
+        for f in sorted({1, n // 2, n - 1} - {0}):
+            d = "".join(rng.choice("0123456789") for _ in range(n))
+            ext_d.append((d[: n - f].lstrip("0") or "0") + "." + d[n - f:])
+        ext_d.append("." + "".join(rng.choice("0123456789") for _ in range(n)))
+        ext_d.append("0." + "0" * (n - 1) + "1")
+    big += ext_i
+    decs += ext_d
+    env.note("length_extremes", {"digit_counts": LENGTH_EXTREMES[: env.budget(36, len(LENGTH_EXTREMES))], "integers": len(ext_i), "decimals": len(ext_d)})
     big = list(dict.fromkeys(big))
     decs = list(dict.fromkeys(decs))
     report(env, V.pmap(eval_list, chunks(big, 100), timeout=300, procs=PROCS, chunksize=1), "integer", counter)
